@@ -1590,4 +1590,18 @@ example : base128 (2 ^ 32) = [0x90, 0x80, 0x80, 0x80, 0x00] ∧
 -- 2.999: the two leading arcs from the single sub-identifier 1079
 example : Oid.toU32 .first [0x88, 0x37] = some 2 ∧ Oid.toU32 .second [0x88, 0x37] = some 999 := by decide
 
+/-! ### comparison and hashing are by content octets -/
+
+/-- `Oid == Oid` exactly when the content octets are equal -/
+theorem eq_iff_content (a b : Bytes) : Oid.eq a b = true ↔ a = b := by
+  simp [Oid.eq]
+
+/-- equal identifiers feed the same octets to the hasher, so they hash equally (with any hasher) -/
+theorem hash_content (a b : Bytes) (h : Oid.eq a b = true) : Oid.hashInput a = Oid.hashInput b := by
+  rw [(eq_iff_content a b).mp h]
+
+/-- … and the hash input determines the identifier: no two different identifiers are hashed as
+    the same octets -/
+theorem hashInput_inj (a b : Bytes) (h : Oid.hashInput a = Oid.hashInput b) : a = b := h
+
 end Bcder.Props.C20
